@@ -533,14 +533,22 @@ package board
 //@   hyp repOK(b) && c <= 1 && onBoard(s) && onBoard(t)
 //@   concl has(reachersTo(pos(b), uint8(c), occ, uint8(t)), uint8(s)) == (has(colSet(pos(b), uint8(c)), uint8(s)) && ite(pieceAt(pos(b), uint8(s)) == 2, has(knightSet(sqbit(uint8(s))), uint8(t)), ite(pieceAt(pos(b), uint8(s)) == 3, has(bishopSet(sqbit(uint8(s)), occ), uint8(t)), ite(pieceAt(pos(b), uint8(s)) == 4, has(rookSet(sqbit(uint8(s)), occ), uint8(t)), ite(pieceAt(pos(b), uint8(s)) == 5, has(bishopSet(sqbit(uint8(s)), occ) | rookSet(sqbit(uint8(s)), occ), uint8(t)), false)))))
 //@
+//@ lemma setsAdditive(g BitBoard, s Square, occ BitBoard)
+//@   props C09
+//@   hyp onBoard(s)
+//@   concl rookSet(g | sqbit(uint8(s)), occ) == rookSet(g, occ) | rookWalk(uint8(s), occ)
+//@   concl bishopSet(g | sqbit(uint8(s)), occ) == bishopSet(g, occ) | bishopWalk(uint8(s), occ)
+//@   concl knightSet(g | sqbit(uint8(s))) == knightSet(g) | knightSet(sqbit(uint8(s)))
+//@
+//@ define doneSq(all, rest) = all &^ rest
 //@ func (*Board).Block
 //@   props C09
-//@   requires repOK(b) && color <= 1 && color == b.STM
-//@   ensures [complete] implies(bit(squares, gmTo()) && !bit(occB(b), gmTo()) && pseudo(pos(b), gmv()) && pieceAt(pos(b), uint8(gmFrom())) != 6 && !isEP(pos(b), gmv()), bit(result, gmFrom()))
+//@   requires repOK(b) && color <= 1
+//@   ensures [set] result == blockSet(pos(b), uint8(color), squares)
 //@   modifies nothing
 //@   nopanic
-//@   use reachersForward(b, color, occB(b), gmFrom(), gmTo()) at exit
-//@   loop 1: invariant sqrs & ^pre(sqrs) == 0 && implies(bit(pre(sqrs) &^ sqrs, gmTo()) && has(reachersTo(pos(b), uint8(color), occ, uint8(gmTo())), uint8(gmFrom())), bit(res, gmFrom()))
+//@   use setsAdditive(doneSq(pre(sqrs), sqrs), sqrs.LowestSet(), occ) at loop1
+//@   loop 1: invariant sqrs & ^pre(sqrs) == 0 && res == b.Colors[color] & ((knightSet(doneSq(pre(sqrs), sqrs)) & b.Pieces[2]) | (bishopSet(doneSq(pre(sqrs), sqrs), occ) & (b.Pieces[3] | b.Pieces[5])) | (rookSet(doneSq(pre(sqrs), sqrs), occ) & (b.Pieces[4] | b.Pieces[5])))
 //@
 //@ # ---- C09: the direct checkmate test
 //@ # (known finding F6: an e.p. capture that interposes on the check line is not considered; such
@@ -566,6 +574,15 @@ package board
 //@   hyp onBoard(s) && onBoard(t)
 //@   concl implies(has(rookWalk(uint8(s), occ), uint8(t)) || has(bishopWalk(uint8(s), occ), uint8(t)), between(uint8(s), uint8(t)) & occ == 0)
 //@
+//@ # a pseudo-legal non-capturing move of a piece other than the king onto an empty square of sq starts in blockSet
+//@ lemma blockSetComplete(p $Pos, m $Mv, sq BitBoard)
+//@   props C09
+//@   hyp wfPos(p) && pseudo(p, m) && has(sq, mvTo(m)) && sq & occOf(p) == 0 && pieceAt(p, mvFrom(m)) != 6 && !isEP(p, m)
+//@   concl has(blockSet(p, stm(p), sq), mvFrom(m))
+//@
+//@ # the squares of sq a piece standing on d can move to without capturing (sq: empty squares)
+//@ define pawnSteps(b, d, sq) = (pawnPushSet(uint8(b.STM), sqbit(uint8(d))) & sq) | ite(startRank(uint8(b.STM), uint8(d)), pawnPushSet(uint8(b.STM), pawnPushSet(uint8(b.STM), sqbit(uint8(d))) &^ occB(b)) & sq, BitBoard(0))
+//@ define blockTargets(b, d, sq) = ite(b.SquaresToPiece[d] == 1, pawnSteps(b, d, sq), ite(b.SquaresToPiece[d] == 2, knightSet(sqbit(uint8(d))) & sq, ite(b.SquaresToPiece[d] == 3, bishopWalk(uint8(d), occB(b)) & sq, ite(b.SquaresToPiece[d] == 4, rookWalk(uint8(d), occB(b)) & sq, (bishopWalk(uint8(d), occB(b)) | rookWalk(uint8(d), occB(b))) & sq))))
 //@ define kq(b) = uint8(kingSqOf(b))
 //@ define cq(b) = uint8(checkerSq(b))
 //@ define chk(b) = attackersTo(pos(b), uint8(b.STM ^ 1), occB(b), kq(b))
@@ -573,19 +590,29 @@ package board
 //@ func (*Board).IsCheckmate
 //@   props C09
 //@   requires repOK(b) && validPos(pos(b)) && inCheck(pos(b), uint8(b.STM)) && epNormalised(pos(b))
+//@   thorough-only
 //@   use singleCheckReplies(pos(b), gmv()) at exit
 //@   use attackersToForward(b, b.STM, occB(b), gmFrom(), checkerSq(b)) at exit
 //@   use attacks.inBetweenFilled(kingSqOf(b), checkerSq(b)) at exit
 //@   use slideBetween(kingSqOf(b), checkerSq(b), occB(b)) at exit
+//@   use blockSetComplete(pos(b), gmv(), between(kq(b), cq(b))) at exit
 //@   # stepping stones of the soundness argument (each proved, then assumed by the next)
 //@   assert [king] implies(result && gmFrom() == kingSqOf(b), !lg(b))
 //@   assert [single] implies(result && lg(b) && gmFrom() != kingSqOf(b), onehot(chk(b)) && (capSq(pos(b), gmv()) == cq(b) || has(between(kq(b), cq(b)), uint8(gmTo()))))
 //@   assert [capture] implies(result && lg(b) && gmFrom() != kingSqOf(b), capSq(pos(b), gmv()) != cq(b))
 //@   assert [block] implies(result && lg(b) && gmFrom() != kingSqOf(b) && !epInterposes(b), !has(between(kq(b), cq(b)), uint8(gmTo())))
 //@   ensures [sound] implies(result, !legal(pos(b), gmv()))
+//@   # completeness: every `return false` names a legal move (witness)
+//@   at-return 1 requires [witness1] legal(pos(b), mkMv(uint8(kingSq), uint8(to.LowestSet())))
+//@   at-return 3 requires [witness3] legal(pos(b), witMove(pos(b), uint8(defender.LowestSet()), uint8(attacker.LowestSet())))
+//@   at-return 4 requires [witness4] legal(pos(b), mkMv(epCand(pos(b), true), uint8(b.EnPassant))) || legal(pos(b), mkMv(epCand(pos(b), false), uint8(b.EnPassant)))
+//@   at-return 5 requires [witness5] legal(pos(b), witMove(pos(b), uint8(defender.LowestSet()), uint8(blockTargets(b, defender.LowestSet(), blocked).LowestSet())))
 //@   modifies nothing
 //@   nopanic
 //@   timeout 300
+//@   use rookSym((defenders & -defenders).LowestSet(), blocked, occ) at loop3
+//@   use bishopSym((defenders & -defenders).LowestSet(), blocked, occ) at loop3
+//@   use knightSym((defenders & -defenders).LowestSet(), blocked) at loop3
 //@   use attackersToForward(b, b.STM, occ, gmFrom(), attacker.LowestSet()) at loop2
 //@   use attacks.inBetweenFilled(kingSq, aSq) at loop3
 //@   use attacks.inBetweenFilled(kingSq, attacker.LowestSet()) at loop2
